@@ -1,5 +1,6 @@
 """C09 - no state is revealed to the peer before its monitor update is durable (structural part)."""
 from engine import *
+import provenance
 
 CH = 'lightning::ln::channel::'
 FC = CH + 'FundedChannel::'
@@ -633,4 +634,5 @@ RULES = [
 	('09.k', 'every new update of a live channel queues behind held updates; held updates are renumbered together', r09k),
 	('09.l', 'a withheld channel_ready is recorded as pending; completion actions are released only when all in-flight updates completed', r09l),
 	('09.j', 'held state accumulates across pauses; renumbering uses the first blocked id; an InProgress initial persist is tracked', r09j),
+	('09.p', 'same-name field transfer: structs carrying this property\'s quantities are filled from the same-named field or a reviewed alias (rules/provenance.py)', lambda F: provenance.for_property(F, 'C09', '09.p')),
 ]
